@@ -20,6 +20,9 @@ class Grid(BaseGrid):
         if metric == "cellwise":
             self.DX = self.dx0 * (1.0 + 0.125 * ((ii + 2 * jj) % 3))
             self.DY = self.dy0 * (1.0 + 0.25 * ((2 * ii + jj) % 2))
+        elif metric == "uniform-int":  # a spacing configured as a whole number and kept that way: metric() returns integer arrays
+            self.DX = np.full((jmax, imax), int(self.dx0))
+            self.DY = np.full((jmax, imax), int(self.dy0))
         else:
             self.DX = np.full((jmax, imax), self.dx0)
             self.DY = np.full((jmax, imax), self.dy0)
